@@ -76,6 +76,9 @@ def rewrite_statement(rng, stmt, p_pseudo=0.5):
                 v = None
             if v is not None and -2048 <= v < 2048:
                 return rewrite_statement(rng, f"addi {ops[0]}, x0, {ops[1]}", 0)
+            if v is not None and v % 4096 == 0 and -2**31 <= v < 2**32:
+                # a multiple of 4096: the official expansion is the single `lui rd, v >> 12`
+                return rewrite_statement(rng, f"lui {ops[0]}, {(v % 2**32) >> 12}", 0)
         else:
             try:
                 r = PSEUDO[lm](ops)
